@@ -11,7 +11,7 @@ sys.path.insert(0, ROOT)
 from harness import common, tie
 common.enter_scratch()
 BASE = sys.argv[1]
-WORK = sys.argv[2] if len(sys.argv) > 2 and not sys.argv[2][0] in 'MNP' else '/tmp/mutate_lang'
+WORK = sys.argv[2] if len(sys.argv) > 2 and not sys.argv[2][0] in 'MNPV' else '/tmp/mutate_lang'
 os.makedirs(WORK, exist_ok=True)
 F = 'maltoolbox/language/languagegraph.py'
 src = open(os.path.join(BASE, F)).read()
@@ -55,6 +55,16 @@ MUTS = [
                         step['reaches']['stepExpressions']""")),
  ('M9', 'C03', 'defect', "the new reaches dict of the last branch gets 'overrides': True",
   rep("'overrides': False,", "'overrides': True,")),
+ ('V1', 'C03', 'defect', "variable lookup: returns the variable dictionary instead of its 'stepExpression'",
+  rep("        return variable_dict['stepExpression']", "        return variable_dict")),
+ ('V2', 'C03', 'defect', "variable lookup: ancestors are searched first (the own definition no longer shadows)",
+  rep("        if not variable_dict:\n            if asset['superAsset']:", "        if True:\n            if asset['superAsset']:")),
+ ('V3', 'C03', 'defect', "variable lookup: recursion on the asset itself instead of its super asset",
+  rep("variable_dict = self._get_variable_for_asset_type_by_name(asset['superAsset'],", "variable_dict = self._get_variable_for_asset_type_by_name(asset['name'],")),
+ ('V4', 'C03', 'defect', "variable lookup: unknown asset type no longer raises (falls through)",
+  rep("            raise LanguageGraphException(msg % asset_type)", "            return {}")),
+ ('V5', 'C03', 'harmless', "variable lookup: extra logging and a renamed local",
+  lambda s: s.replace("variable_dict", "var_d").replace("        if not var_d:\n            if asset['superAsset']:", "        if not var_d:\n            logger.debug('not on %s', asset_type)\n            if asset['superAsset']:")),
  ('N1', 'C15', 'defect', "is_subasset_of walks sub_assets instead of super_assets",
   rep("""                return True
             current_assets.extend(current_asset.super_assets)""", """                return True
@@ -130,7 +140,7 @@ MUTS = [
             )
 """)),
 ]
-only = [a for a in sys.argv[2:] if a[0] in 'MNP' and a[1:].isdigit()]
+only = [a for a in sys.argv[2:] if a[0] in 'MNPV' and a[1:].isdigit()]
 rows = []
 for mid, pid, kind, desc, f in MUTS:
     if only and mid not in only: continue
